@@ -17,7 +17,10 @@ def gen_case(rng):
     drv = rng.randrange(0, 2)
     full = rng.choice([1, 2, 4, 8, 8, 12, 16, 16, 24, 64])
     w = Window(Member(POOL, 0, full, full))
-    steps = gen_c10.gen_steps(rng, adv, w, rng.random() < 0.15)
+    mode = rng.random()
+    # a third of the cases: partly filled pool buffer + reserve family (C10-a); another third:
+    # partly filled pool buffer + the Deref/DerefMut/as_mut_slice views (C10-b)
+    steps = gen_c10.gen_steps(rng, adv, w, rng.random() < 0.15, mode < 0.33, 0.33 <= mode < 0.66)
     case = [3, drv, full, len(steps)]
     for s in steps:
         case += list(s)
